@@ -304,22 +304,31 @@ func solveAll(obls []*Obligation, dir string, workers, timeoutS int, all bool) [
 	wg.Wait()
 	// An obligation that ran into the time limit while the others kept all
 	// cores busy is tried once more, alone, with twice the time: a machine under
-	// load must not turn a proof that takes a few seconds into an alarm.  (At
-	// most four such retries; covers are not retried - an undecided cover is
-	// not an alarm.)
-	retried := 0
+	// load must not turn a proof that takes a few seconds into an alarm.  (Covers are not retried - an undecided cover is not an alarm.)
+	// (Only when one or two obligations are affected - a change that really
+	// breaks something usually leaves several undecided, and those are not
+	// worth waiting for again - and never for more than 50 s each.)
+	var late []int
 	for i, r := range results {
-		if r == nil || r.Status != "unknown" || r.Obl == nil || r.Obl.Kind == "cover" || retried >= 4 {
+		if r == nil || r.Status != "unknown" || r.Obl == nil || r.Obl.Kind == "cover" {
 			continue
 		}
 		if r.Secs < float64(timeoutS)-2 {
 			continue // the solvers gave up on their own: more time will not help
 		}
-		retried++
-		r2 := solveOne(obls[i], dir, i, 2*timeoutS, all)
-		if r2 != nil && r2.Status != "unknown" {
-			r2.Solver += " (retried alone)"
-			results[i] = r2
+		late = append(late, i)
+	}
+	if len(late) <= 2 {
+		t2 := 2 * timeoutS
+		if t2 > 50 {
+			t2 = 50
+		}
+		for _, i := range late {
+			r2 := solveOne(obls[i], dir, i, t2, all)
+			if r2 != nil && r2.Status != "unknown" {
+				r2.Solver += " (retried alone)"
+				results[i] = r2
+			}
 		}
 	}
 	return results
